@@ -219,15 +219,17 @@ func init() {
 	})
 	// timers never fire unless a harness drives them (no concurrency semantics)
 	reg("time.After", func(fr *frame, fn *ssa.Function, args []value) value {
-		fr.in.P.noteAssumption("time.After/NewTimer channels never fire (no wall clock); waiting code paths are cut at the select")
-		return &hchan{never: true}
+		fr.in.P.noteAssumption("virtual time: time.After/NewTimer channels are ready immediately (the requested duration is observable only through stubs)")
+		return &hchan{buf: []value{fr.in.zero(fn.Signature.Results().At(0).Type().Underlying().(*types.Chan).Elem())}}
 	})
 	reg("time.NewTimer", func(fr *frame, fn *ssa.Function, args []value) value {
 		in := fr.in
 		tt := deref(fn.Signature.Results().At(0).Type())
 		p := new(value)
 		st := in.zero(tt).(structure)
-		st[fieldIndex(tt, "C")] = &hchan{never: true}
+		fr.in.P.noteAssumption("virtual time: time.After/NewTimer channels are ready immediately (the requested duration is observable only through stubs)")
+		ct := under(tt).(*types.Struct).Field(fieldIndex(tt, "C")).Type().Underlying().(*types.Chan).Elem()
+		st[fieldIndex(tt, "C")] = &hchan{buf: []value{fr.in.zero(ct)}}
 		*p = st
 		return p
 	})
